@@ -60,6 +60,13 @@ pub mod k256 {
         /// k256: SEC1 point decoding (33-byte compressed / 65-byte uncompressed)
         pub uninterp spec fn sec1_valid(b: Seq<u8>) -> bool;
         pub uninterp spec fn sec1_key(b: Seq<u8>) -> VerifyingKey;
+        /// the SEC1 encodings every secp256k1 library understands: 33-byte compressed (tag 2/3), 65-byte uncompressed (tag 4).
+        /// (k256 alone also takes the x-only form, tag 5; libsecp256k1 alone the hybrid form, tags 6/7.)
+        pub open spec fn sec1_standard(b: Seq<u8>) -> bool {
+            (b.len() == 33 && (b[0] == 2 || b[0] == 3)) || (b.len() == 65 && b[0] == 4)
+        }
+        /// what the crate accepts as a secp256k1 public key: a standard encoding of a valid point
+        pub open spec fn sec1_ok(b: Seq<u8>) -> bool { sec1_standard(b) && sec1_valid(b) }
         /// the verifying key of a signing key
         pub uninterp spec fn sk_public(k: &SigningKey) -> VerifyingKey;
         /// 33-byte compressed SEC1 form / 64-byte x||y form of a verifying key
@@ -74,6 +81,7 @@ pub mod k256 {
         #[verifier::external_body]
         pub proof fn axiom_vk_roundtrip(k: VerifyingKey)
             ensures vk_compressed(&k).len() == 33, sec1_valid(vk_compressed(&k)), sec1_key(vk_compressed(&k)) == k,
+                vk_compressed(&k)[0] == 2 || vk_compressed(&k)[0] == 3,
         {}
         impl SigningKey {
             #[verifier::external_body]
